@@ -392,6 +392,14 @@ def Inv : Container K V → Prop
   | .four k1 k2 k3 k4 _ _ _ _ => [k1, k2, k3, k4].Nodup
   | .n m => (m.map (·.1)).Nodup ∧ m.map (·.2.index) ~ List.range m.length
 
+instance (c : Container K V) : Decidable (Inv c) :=
+  match c with
+  | .one _ _ => inferInstanceAs (Decidable True)
+  | .two k1 k2 _ _ => inferInstanceAs (Decidable ([k1, k2].Nodup))
+  | .three k1 k2 k3 _ _ _ => inferInstanceAs (Decidable ([k1, k2, k3].Nodup))
+  | .four k1 k2 k3 k4 _ _ _ _ => inferInstanceAs (Decidable ([k1, k2, k3, k4].Nodup))
+  | .n m => inferInstanceAs (Decidable ((m.map (·.1)).Nodup ∧ m.map (·.2.index) ~ List.range m.length))
+
 /-- `s` is `m` arranged by stored index, and the stored indices are `0, 1, …` -/
 structure SortedForm (m s : HMap K (IndexedEntry V)) : Prop where
   perm : s ~ m
